@@ -21,6 +21,7 @@ META = {
 
 def check(ctx):
     adapter.grid(ctx)
+    adapter.merge_close_times(ctx)
     adapter.unique_observable_times(ctx)
     adapter.traj_reps(ctx)
     step.step_sv(ctx)
